@@ -11,6 +11,7 @@ class PathCache:
         self.prog, self.eff = prog, eff
         self.default = loop_bound
         self._c = {}
+        derive_owned(prog)
 
     def get(self, fname, loop_bound=None, inline=(), inline_static=False):
         loop_bound = self.default if loop_bound is None else loop_bound
@@ -223,8 +224,60 @@ TAKES_REF = {
 CONSUMES = {"_cbor_builder_append": [0]}
 
 
+_DERIVED_OWN = set()
+
+
 def returns_owned(name):
-    return name in OWN_RETURN or name.startswith(OWN_RETURN_PREFIX)
+    return name in OWN_RETURN or name.startswith(OWN_RETURN_PREFIX) or name in _DERIVED_OWN
+
+
+def derive_owned(prog):
+    """unit-internal helpers that hand out an owned reference: every value they return is NULL or the result of a
+    function that returns an owned reference (greatest fixpoint, so helpers may be mutually recursive)"""
+    from ir import Inst, Null, strip_casts
+    cand = {f.name for f in prog.lib_funcs() if f.internal and f.ret_type == "%struct.cbor_item_t*"}
+
+    def sources(f, v, seen):
+        v = strip_casts(v)
+        if isinstance(v, Inst) and v.op in ("phi", "select"):
+            if v.id in seen:
+                return []
+            out = []
+            for o in (v.operands if v.op == "phi" else v.operands[1:]):
+                out += sources(f, o, seen | {v.id})
+            return out
+        if isinstance(v, Inst) and v.op == "load":
+            from ir import apath
+            root, steps = apath(v.operands[0])
+            if root[0] == "inst" and f.insts[root[1]].op == "alloca" and not steps and v.id not in seen:
+                # a local whose address is taken (e.g. for cbor_decref(&res)): whatever is stored into it
+                out = []
+                for s_ in f.all_insts():
+                    if s_.op == "store" and apath(s_.operands[1]) == (root, steps):
+                        out += sources(f, s_.operands[0], seen | {v.id})
+                return out or [v]
+        return [v]
+    changed = True
+    while changed:
+        changed = False
+        for name in sorted(cand):
+            f = prog.funcs[name]
+            ok = True
+            for r in f.returns():
+                if not r.operands:
+                    continue
+                for v in sources(f, r.operands[0], frozenset()):
+                    if isinstance(v, Null):
+                        continue
+                    if isinstance(v, Inst) and v.op == "call" and v.callee and \
+                            (v.callee in OWN_RETURN or v.callee.startswith(OWN_RETURN_PREFIX) or v.callee in cand):
+                        continue
+                    ok = False
+            if not ok:
+                cand.discard(name)
+                changed = True
+    _DERIVED_OWN.clear()
+    _DERIVED_OWN.update(cand)
 
 
 def refcount_delta(rc_off, e):
